@@ -17,6 +17,8 @@ def build_jobs(tier, seed):
             J(H['endcapture-step'], dict(P))]
     jobs += img.simple_jobs(J, H, PROPS, k, tier)
     jobs.append(J(H['vhdx'], dict(P, cuts=1, sigs='fixed'), split_depth=16))
+    jobs.append(J(H['vhdx'], dict(P, cuts=1, sigs='fixed', mcount='sym'),
+                  split_depth=16))
     jobs += img.vmdk_jobs(J, H, PROPS, tier, {'hdr', 'descnum', 'footer'})
     return jobs
 
